@@ -6,14 +6,14 @@ THEOREMS = {
         "clean_spec", "sanitize_safe", "sanitize_rejects",
         "extract_regular_only", "extract_no_overwrite", "extract_confined",
         "frames_authentic", "frames_tamper_rejected", "wrong_key_rejected", "symAead_free",
-        "eof_check_contract", "eof_check_err_first_unsound", "frames_authentic_any_reader", "manifest_decode_total_input",
+        "eof_check_contract", "eof_check_err_first_unsound", "frames_authentic_any_reader", "zero_length_frame_rejected", "manifest_decode_total_input",
         "verify_before_write", "fragment_mutation_rejected", "manifest_edit_safe", "count_edit_consistent_rejected", "preflight_is_per_graph", "extracted_collection_verified",
         "staging_promote_atomic", "unpack_staged_no_partial",
         "unpack_plain_partial_output_old", "unpack_enc_direct_partial_output", "unpack_plain_fixed",
         "c20_core", "c20_full_refuted", "c20_fixed", "c20_partial",
     ]],
     "Dawgs.Tie.C20": ["Dawgs.C20.Tie." + t for t in [
-        "load_order", "verify_covers_all", "verify_comparisons", "extracted_validation_keys", "read_sites_n_first", "json_decoders_total", "extract_guards", "frame_aad_binds", "unpack_stages",
+        "load_order", "verify_covers_all", "verify_comparisons", "extracted_validation_keys", "read_sites_n_first", "frame_no_accept_before_open", "json_decoders_total", "extract_guards", "frame_aad_binds", "unpack_stages",
     ]],
 }
 
@@ -60,14 +60,14 @@ def finding_key(suite, ops, line, msg):
     op = ops[line].split() if 0 <= line < len(ops) else ["?"]
     if op[0] == "with" and len(op) > 2:   # reader behaviour wrapper: the finding is that of the wrapped op
         op = op[2:]
-    if op[0] in ("tar", "uarc", "umtail"):
+    if op[0] in ("tar", "uarc", "umtail", "uins"):
         api = API.get(op[1].split("+")[0], op[1]) if len(op) > 1 else "?"
         return "C20:%s:%s" % (api, SHAPE.get((api, cls), cls))
     if op[0] == "path":
         return "C20:sanitizeArchivePath:%s" % cls
     if op[0] in ("frames", "framesr"):
         return "C20:encryptedArchiveReader:%s" % cls
-    if op[0] in ("arc", "arckey"):
+    if op[0] in ("arc", "arckey", "arcins"):
         return "C20:Load(archive):%s" % cls
     return "C20:Load:%s" % cls
 
@@ -87,7 +87,7 @@ def extra_coverage(ctx, stats):
             "frame_sequences_over_7_frames_up_to_len_%d" % Lf: {"enumerated": got_scripts, "formula": want_scripts},
         },
         "exhaustive": got_paths == want_paths and got_scripts == want_scripts,
-        "byte_mutations": {k: stats.get("gen.gen." + k, 0) for k in ("sub", "sub_digit", "trunc", "append", "swapcopy", "man_file", "man_consistent", "semantic_edge", "semantic_dup", "uarc", "mtail", "umtail", "reader_ops", "arc_sub", "arc_trunc", "tar_name_type", "tar_enc")},
+        "byte_mutations": {k: stats.get("gen.gen." + k, 0) for k in ("sub", "sub_digit", "trunc", "append", "swapcopy", "man_file", "man_consistent", "semantic_edge", "semantic_dup", "uarc", "mtail", "umtail", "reader_ops", "arcins", "uins", "arc_sub", "arc_trunc", "tar_name_type", "tar_enc")},
     }
 
 
@@ -115,7 +115,8 @@ SPEC = {
             "totals and metrics lowered/raised by 1..k, digest/size pairs, path swaps, whole-entry swaps) under Load batch sizes 1/2/3/1000 from a directory "
             "and re-packed through ArchiveReader, byte mutations of the encrypted archive given to Load, "
             "wrong/malformed keys, random small dumps; manifest.json extended / prefixed (brace, NUL, text, second document, BOM, white space) for directory "
-            "load, archive load and Unpack, key files followed by extra bytes; the archive stream cases again through six io.Reader behaviours (plain, data "
+            "load, archive load and Unpack, key files followed by extra bytes; frames nobody sealed (every type, declared length 0, 1..15, 16, 17, limit, limit+1) inserted at every frame boundary of real "
+            "archives (Load, Unpack, direct API) and of the c20frames scripts; the archive stream cases again through six io.Reader behaviours (plain, data "
             "together with EOF, one byte, half reads, (0,nil) first, transient error); re-hashed (semantically consistent) tampering over 3-graph dumps in five id spellings "
             "(decimal, element id, UUID, zero padded, ids shared between graphs): every edge endpoint re-pointed to a node of another graph or to "
             "no node, duplicate node ids, directory and ArchiveReader input; hostile encrypted archives built with the public key whose manifest spells "
@@ -125,7 +126,7 @@ SPEC = {
             "c20frames: all frame sequences up to length 4 (5) over the frames of two real archives + random perturbations, real reader vs Lean model. "
             "A case is non-trivial when it contains both an accepted and a rejected input; distinct = distinct op-line sequences (sha1).",
     "expected_branches": ["branch.load.ok", "branch.load.err", "errclass.checksum", "errclass.bytecount", "errclass.manifest-validate",
-                          "errclass.count", "arcmans.built", "uarc.built", "op.edge", "op.dupnode", "errclass.dangling-endpoint", "errclass.duplicate-id", "reader.dataerr", "reader.onebyte", "reader.half", "reader.zero", "reader.timeout", "op.mtail", "op.umtail", "errclass.frame-decrypt", "errclass.frame-missing-final", "errclass.frame-trailing", "branch.key.rejected-at-parse",
+                          "errclass.count", "arcmans.built", "uarc.built", "op.edge", "op.dupnode", "errclass.dangling-endpoint", "errclass.duplicate-id", "reader.dataerr", "reader.onebyte", "reader.half", "reader.zero", "reader.timeout", "op.mtail", "op.umtail", "op.arcins", "op.uins", "errclass.frame-decrypt", "errclass.frame-missing-final", "errclass.frame-trailing", "branch.key.rejected-at-parse",
                           "branch.key.parsed", "branch.unpack.plain.err", "branch.unpack.staged.err", "branch.unpack.staged.ok",
                           "branch.unpack.encdirect.err", "unpackclass.path-traversal", "unpackclass.path-absolute", "unpackclass.path-backslash",
                           "unpackclass.not-regular", "unpackclass.duplicate", "unpackclass.write", "unpackclass.create",
